@@ -47,6 +47,15 @@ func (l *list[K, V]) appendEntry(ent *entry[K, V], node func(*entry[K, V]) *node
 	l.count++
 }
 
+func (l *list[K, V]) containsEntry(ent *entry[K, V], node func(*entry[K, V]) *node[K, V]) bool {
+	for e := l.head; e != nil; e = node(e).next {
+		if e == ent {
+			return true
+		}
+	}
+	return false
+}
+
 func (l *list[K, V]) removeEntry(ent *entry[K, V], node func(*entry[K, V]) *node[K, V]) {
 	n := node(ent)
 	if l.head == ent {
